@@ -144,6 +144,7 @@ class SPIDeviceInterface(Elaboratable):
                 # If we're just completing a word, handle I/O.
                 with m.If(bit_count + 1 == self.word_size):
                     m.d.sync += [
+                        bit_count          .eq(0),
                         self.word_accepted .eq(1),
                         current_tx         .eq(self.word_out)
                     ]
